@@ -184,6 +184,15 @@ def run_check(pid, cfg, tier, seed, work, t0):
     seen_classes = {}
     other = []
     for (engine, files, tid, ln, m, pre) in prop_fail:
+        # an oracle that belongs to one property only says so in its message
+        own = re.search(r"\[(C\d\d)\] ", m)
+        if own and own.group(1) != pid:
+            other.append("%s (oracle of %s)" % (m[:160], own.group(1)))
+            continue
+        if not own and engine in cfg.get("own_oracle_only_engines", []):
+            # this engine runs here for the property's own oracle; its general oracles belong to the properties that own the engine
+            other.append("%s (general oracle of the %s engine: belongs to another property)" % (m[:160], engine))
+            continue
         cls = (engine, C.msg_class(m))
         seen_classes.setdefault(cls, []).append((files, tid, ln, m, pre))
     reported = 0
@@ -214,7 +223,9 @@ def run_check(pid, cfg, tier, seed, work, t0):
             if any(C.msg_class(mm) == cls for (_, _, mm) in r0.prop):
                 other.append("%s (fails without any %s op: belongs to another property)" % (m[:160], "/".join(req)))
                 continue
-        shrunk, okshrink = C.shrink(engine, lines, work, cls, budget=cfg.get("shrink_budget", 80))
+        # crash / sched / res workloads are the context of their oracles: kept whole
+        budget = 0 if engine in ("crash", "sched", "res") else cfg.get("shrink_budget", 80)
+        shrunk, okshrink = C.shrink(engine, lines, work, cls, budget=budget)
         r, text = C.replay_ops(engine, shrunk, work, "final")
         msgs = ["%s" % mm for (_, _, mm) in r.prop] or [m]
         # a shrunk trace may reveal that the failure is a known finding after all
